@@ -149,7 +149,7 @@ func (r *zzMemReader) Read(p []byte) (int, error) {
 	}
 	n := zzMin(len(p), avail)
 	var err error
-	if r.chunked {
+	if r.chunked && r.nread < 3 {
 		k := int(zzModel[fmt.Sprintf("%s_c%d", r.name, r.nread)])
 		if k < 1 {
 			k = 1
